@@ -6,6 +6,7 @@
 #          stub tools, run on command lines generated from the option grammar of cproc(1); what the stubs saw
 #          (argv of every stage, pipeline order through the provenance chain, output names) is compared with the
 #          extracted Driver.plan (model) and DriverSpec.plan (the manual)
+import zlib
 import json, os, re, shutil, sys
 import vlib
 from vlib import sh, txt
@@ -276,7 +277,8 @@ def systematic(rng):
     opts = []
     for c in (b'-D', b'-U', b'-I', b'-L', b'-l', b'-o'):
         opts += [[c + b'V'], [c, b'V'], [c]]
-        opts += [[c + b'/abs/V.a'], [c, b'/abs/V.a'], [c, b':V.a']]
+        if c != b'-o':      # (an output file in a directory that does not exist makes the last tool fail: not an option-parsing matter)
+            opts += [[c + b'/abs/V.a'], [c, b'/abs/V.a'], [c, b':V.a']]
     for w in (b'-include', b'-idirafter', b'-isystem', b'-iquote', b'-MT', b'-MF'):
         opts += [[w, b'V'], [w]]
     opts += [[w] for w in (b'-nostdinc', b'-static', b'-nostdlib', b'-pthread', b'-s', b'-P', b'-MD', b'-MMD', b'-M', b'-MM', b'-std=c99', b'-v',
@@ -544,7 +546,8 @@ def run(ctx):
 
         def one(job):
             rg, a = job
-            res = rg.run(a)
+            # one command line in eight is run through a symbolic link to the driver with another name in another directory
+            res = rg.run(a, via_link=(zlib.crc32(b'\0'.join(a)) % 8 == 0))
             return rg, a, canon_real(res), res['rc']
         reported = {}
         for rg, a, (real, problems), rc in vlib.parallel_map(one, jobs, nproc=2 * vlib.NCPU):
